@@ -17,7 +17,7 @@ ASSUMPTIONS = ['SingleTestRunner.run is replaced by a stub (no subprocesses, no 
 OUT = 'real subprocesses, timeouts and process-group kills, SIGINT handling, console/log rendering, testlog.json serialisation, priority sorting in the backend'
 MANIFEST = dict(
     text='Bounded model checking of the real scheduler coroutine over ALL completion orders (interleavings are a solver-visible choice), all parallel/serial flag '
-         'assignments and result classes up to the bound; the classification rule for every integer exit status; the slice partition for every n<=6.',
+         'assignments and result classes up to the bound; the classification rule for every integer exit status; the slice partition for every n<=6; selection by (overlapping) name patterns; the process exit status for ANY number of bad results.',
     note='Trusted: symx engine, z3, CPython asyncio on a stepped loop. Stub: SingleTestRunner.run. Bounds: <=4/5 runners, jobs 1-3, repeat 1-2, maxfail 0-2, <=3 results for the tally.')
 
 M = None
